@@ -14,6 +14,7 @@ EXTENDS Naturals, Sequences, FiniteSets, TLC, Json
 
 CONSTANTS Classes,      \* [class name |-> [slots |-> Seq([name, kind, val]), inits |-> Seq(presence vector)]]
           Depth,
+          OpSet,        \* operations to generate (subset of the op names below)
           WithAttached
 
 VARIABLES cls, init, present, gen, nextGen, steps, last, hist
@@ -25,6 +26,7 @@ N == Len(Slots)
 Rec(op, i, exc) == [op |-> op, slot |-> i, name |-> Slots[i].name, exc |-> exc]
 
 Do(op, i, exc, p2, g2) ==
+    /\ (op \in OpSet \/ (exc # "" /\ "attached" \in OpSet))
     /\ steps < Depth /\ steps' = steps + 1
     /\ present' = p2 /\ gen' = g2
     /\ nextGen' = nextGen + 1
@@ -45,13 +47,16 @@ SetValue(i) == /\ Slots[i].val
 \* the same with an edge value of the type (zero, empty string): must still be "a value", not "absent"
 SetValueEdge(i) == /\ Slots[i].val
                    /\ Do("vsetedge", i, "", [present EXCEPT ![i] = TRUE], [gen EXCEPT ![i] = IF present[i] THEN gen[i] ELSE nextGen])
+\* value-level: x.f = x.f (the value it already has): nothing changes, and the slot stays fully usable
+SetValueSame(i) == /\ Slots[i].val /\ present[i]
+                   /\ Do("vsetsame", i, "", present, gen)
 ClearValue(i) == /\ Slots[i].val /\ Slots[i].kind = "opt"
                  /\ Do("vclear", i, "", [present EXCEPT ![i] = FALSE], [gen EXCEPT ![i] = 0])
 \* a node that already lives in a document (this one or another) must be refused
 Attached(i, src) == WithAttached /\ Do("attached-" \o src, i, "ValueError", present, gen)
 
 Next == \E i \in 1..N :
-           \/ SetNode(i) \/ ClearNode(i) \/ SetSame(i) \/ SetValue(i) \/ SetValueEdge(i) \/ ClearValue(i)
+           \/ SetNode(i) \/ ClearNode(i) \/ SetSame(i) \/ SetValue(i) \/ SetValueEdge(i) \/ SetValueSame(i) \/ ClearValue(i)
            \/ \E src \in {"same", "other"} : Attached(i, src)
 
 Init == \E c \in DOMAIN Classes : \E k \in 1..Len(Classes[c].inits) :
